@@ -15,6 +15,7 @@ import SpecVerif.Model.Object
 import SpecVerif.Model.Window
 import SpecVerif.Model.Criteria
 import SpecVerif.Model.Dpss
+import SpecVerif.Model.Lpc
 /-
   Line-protocol driver for the executable model (no Mathlib anywhere below this file, so it links as a
   `lean_exe`).
@@ -405,6 +406,16 @@ def handle (cmd : String) (hd : List String) (vs : List (List K)) : Reply K :=
           .ok [vec m (nth psi),
                vec m (fun k => sumR (m - k) (fun j => mentryM Ri (j + k) j)),
                vec m (fun k => sumR (m - k) (fun j => mentryM Ri j (j + k)))]
+  | "lpc" =>
+      -- lpc order nfft | x     (nfft = 2**nextpow2(2*len(x)-1), supplied by the caller)
+      let nfft := natAt hd 1
+      needTw nfft (fun t =>
+        let tinv : List K := vec nfft (fun m => nth t ((nfft - m) % nfft))
+        let st := lpc t tinv (vecAt vs 0) nfft (natAt hd 0)
+        .ok [st.A, [st.P]])
+  | "lsfrecombine" =>
+      -- lsfrecombine p | rQ | rP
+      .ok [lsfRecombine (vecAt vs 0) (vecAt vs 1) (natAt hd 0)]
   | "convhist" =>
       -- convhist isComplex nfft cur set:two get:center ... | p
       match sideOf (strAt hd 2), (hd.drop 3).mapM opOf with
